@@ -22,6 +22,7 @@ def exec_stmt(self, s, st, frame):
     try:
         return _exec(self, s, st, frame)
     except PathEnd:
+        frame.last_end = 'raise'
         return None
 
 
@@ -48,8 +49,10 @@ def _exec(self, s, st, frame):
         v = self.eval(s.value, st) if s.value is not None else Const(None)
         v = v.with_taint(self.pc) if self.pc else v
         frame.rets.append((v, st.heap))
+        frame.last_end = 'return'
         return None
     if isinstance(s, ast.Raise):
+        frame.last_end = 'raise'
         return None
     if isinstance(s, ast.If):
         return self.s_If(s, st, frame)
@@ -60,10 +63,12 @@ def _exec(self, s, st, frame):
     if isinstance(s, ast.Break):
         if frame.loops:
             frame.loops[-1]['breaks'].append(st)
+        frame.last_end = 'break'
         return None
     if isinstance(s, ast.Continue):
         if frame.loops:
             frame.loops[-1]['conts'].append(st)
+        frame.last_end = 'continue'
         return None
     if isinstance(s, ast.Assert):
         self.in_assert += 1
@@ -262,15 +267,22 @@ def s_If(self, s, st, frame):
         return self.exec_block(s.body, st, frame)
     if t is False:
         return self.exec_block(s.orelse, st, frame)
-    if getattr(c, 'variant', False):
-        self.conflict('variant-branch', 's', 'branch condition is not invariant under the scaling: %s' % normalise(s.test), s.test)
     save = self.pc
     self.pc = self.pc | taint_of(c)
+    abrupt = False
     try:
+        frame.last_end = None
         a = self.exec_block(s.body, st.fork(), frame)
+        if a is None and frame.last_end in ('break', 'continue', 'return'):
+            abrupt = True
+        frame.last_end = None
         b = self.exec_block(s.orelse, st.fork(), frame)
+        if b is None and frame.last_end in ('break', 'continue', 'return'):
+            abrupt = True
     finally:
-        self.pc = save
+        # an arm that leaves the block (break/continue/return) makes everything that follows in the enclosing
+        # loop / function control dependent on the condition; a raise does not (exception-insensitive)
+        self.pc = (save | taint_of(c)) if abrupt else save
     return join_st(a, b)
 
 
@@ -430,8 +442,6 @@ def s_While(self, s, st, frame):
         t = self.truth(c, s.test)
         if t is False:
             return None
-        if getattr(c, 'variant', False):
-            self.conflict('variant-branch', 's', 'loop condition is not invariant under the scaling: %s' % normalise(s.test), s.test)
         self.pc = self.pc | taint_of(c)
         return state
     return self.loop_fix(s, st, frame, head)
